@@ -193,6 +193,39 @@ def run_cases(probe, cases, keys, jobs=8):
     return res
 
 
+def masks_of(raw):
+    return [l.split()[3] for l in raw.split('\n') if l.startswith('R mask ')]
+
+
+def binding_check(probe, cases, results, keys):
+    """Metamorphic tie for the binding: however the resolved (bind, threads, cores, ignore-process-mask)
+    was obtained, the per-worker PU masks of the running runtime must be those of a start-up in which
+    exactly these values are given directly on the command line (the mapping itself is C15)."""
+    groups = {}
+    for c, r in zip(cases, results):
+        m = re.search(r' accept ok .* bindkey=(\S+)', r['verdict'])
+        if m:
+            topo = dict(x.split('=', 1) for x in c.split('\n')[0].split()[2:])
+            groups.setdefault((topo['topo'], topo['pus'], topo['cores'], m.group(1)), []).append((c, r))
+    canon_cases, order = [], []
+    for (topo, pus, cores, bk), members in groups.items():
+        bind, threads, ncores, ipm = bk.split('/')
+        argv = [f'--pika:bind={bind}', f'--pika:threads={threads}', f'--pika:cores={ncores}'] + (['--pika:ignore-process-mask'] if ipm == '1' else [])
+        lines = [f'case canon{len(order)} pus={pus} cores={cores} maskpus={pus} maskcores={cores} topo={topo}'] + [f'arg {hx(a)}' for a in argv] + ['endcase']
+        canon_cases.append('\n'.join(lines))
+        order.append((topo, pus, cores, bk))
+    with ThreadPoolExecutor(max_workers=8) as ex:
+        outs = list(ex.map(lambda c: run_probe(probe, c, keys) or '', canon_cases))
+    bad, checked = [], 0
+    for key, cc, out in zip(order, canon_cases, outs):
+        ref = masks_of(out)
+        for c, r in groups[key]:
+            checked += 1
+            if masks_of(r['raw']) != ref:
+                bad.append((c, r, f'worker masks {masks_of(r["raw"])} differ from those of the direct start-up {readable(cc)}: {ref}'))
+    return bad, checked, len(order)
+
+
 def kind(v):
     line = v['verdict']
     if 'monitors FAIL' in line:
@@ -277,6 +310,12 @@ def main():
         with open(os.environ['VERIF_DEBUG'], 'w') as f:
             for c, r in zip(cases, results):
                 f.write(kind(r) + ' :: ' + readable(c) + '\n    ' + r['verdict'] + '\n')
+    bbad, bchecked, bgroups = binding_check(probe, cases, results, keys)
+    for c, r, msg in bbad:
+        r['verdict'] = r['verdict'].replace(' accept ', ' reject 0 [binding: ' + msg + '] was-accept ')
+        kinds['pass'] -= 1
+        kinds['tie'] += 1
+        bad.append(('tie', c, r))
     extra_run = 0
     if (not proof_ok or kinds['tie'] > 0) and kinds['monitor'] == 0 and not replay:
         ecases = [gen(rng, f'x{base_seed}n{i}') for i in range(N_EXTRA)]
@@ -344,7 +383,7 @@ def main():
         'traces_validated_against_impl': kinds['pass'], 'disagreements_checked': kinds['tie'],
         'explanation': f"theorems: {[t[0] for t in audit['theorems']]}; translator ok={gen_ok}; correspondence: {kinds} "
                        f"(skip = input outside the modelled fragment, not counted as validated); corpus cases {len(corpus)}; "
-                       f"extra search cases {extra_run}; outcome classes {dist}; probe starts/s {len(cases) / max(t_tie, 0.01):.0f}",
+                       f"extra search cases {extra_run}; outcome classes {dist}; binding: {bchecked} runs compared with {bgroups} direct start-ups; probe starts/s {len(cases) / max(t_tie, 0.01):.0f}",
     }
     write_evidence(PROP, tr, base_seed, cov, time.time() - t0, len(violations), assumptions=ASSUMPTIONS)
     print(f"{PROP}: translator {'ok' if gen_ok else 'FAILED'}; theorems {audit['discharged']}/{audit['obligations']} audited; "
@@ -367,7 +406,7 @@ TRUSTED = [
 ]
 ASSUMPTIONS = [
     'inputs outside the modelled fragment (option files, --, quoting, signed numbers, explicit affinity descriptions, process masks, logging / help / debug options, init_params.cfg) are reported as skip and not validated',
-    'per-worker PU masks are observed (count only) but the mapping bind description -> masks is C15',
+    'per-worker PU masks are compared with those of a start-up that gives the resolved bind/threads/cores directly (metamorphic); the mapping bind description -> masks itself is C15',
 ]
 
 if __name__ == '__main__':
